@@ -56,19 +56,48 @@ def _arr(x, dtype=None, **kw):
     return lst
 
 
-@unit("C25", "SOC.get_pauli_rotated (all angles)", expect_min=4, timeout_ms=60000)
+def _replay_pauli(mv, ob):
+    from wannierberri.w90files.soc import SOC
+    bad = []
+    for th, ph in ((0.3, 0.4), (1.9, -2.2), (rnp.pi, 0.0), (rnp.pi + 0.7, 1.0), (-0.8, 3.0), (5.0, 6.0), (2 * rnp.pi - 0.2, -0.3)):
+        P = SOC.get_pauli_rotated(th, ph)
+        n = rnp.array([rnp.sin(th) * rnp.cos(ph), rnp.sin(th) * rnp.sin(ph), rnp.cos(th)])
+        if not rnp.allclose(rnp.einsum("ijc,c->ij", P, n), rnp.diag([1, -1]), atol=1e-12):
+            bad.append(dict(theta=th, phi=ph, clause="n.sigma' == diag(1,-1)"))
+        sx, sy, sz = P[:, :, 0], P[:, :, 1], P[:, :, 2]
+        if not (rnp.allclose(sx @ sy - sy @ sx, 2j * sz) and rnp.allclose(sx @ sx, rnp.eye(2)) and rnp.allclose(sx, sx.conj().T)):
+            bad.append(dict(theta=th, phi=ph, clause="Pauli algebra"))
+    return dict(reproduced=bool(bad), input="angles inside and outside [0, pi) x [0, 2 pi)", failed=bad[:3])
+
+
+@unit("C25", "SOC.get_pauli_rotated (all angles)", expect_min=4, timeout_ms=60000, replay=_replay_pauli, replay_once=True)
 def _pauli(U):
-    c, s, u, v = sreal("cos_half_theta"), sreal("sin_half_theta"), sreal("cos_half_phi"), sreal("minus_sin_half_phi")
-    hyps = [c * c + s * s == 1, u * u + v * v == 1]
+    # cos / sin of a symbolic argument: one pair of real symbols PER DISTINCT ARGUMENT TERM, tied by c^2+s^2=1 (so the code must take
+    # them of theta/2 and -phi/2 themselves: any other argument yields unrelated symbols and the identities below fail)
+    theta, phi = sreal("theta"), sreal("phi")
+    table = {}
+
+    def pair(x):
+        x = lift(x)
+        key = z3.simplify(x.t).sexpr()
+        if key not in table:
+            k = len(table)
+            table[key] = (sreal("cos_arg%d" % k), sreal("sin_arg%d" % k))
+        return table[key]
 
     def cos(x):
-        return c
+        return pair(x)[0]
 
     def sin(x):
-        return s
+        return pair(x)[1]
 
     def exp(x):
-        return SCplx(u, v)          # exp(-i phi/2) = cos(phi/2) - i sin(phi/2)
+        x = SCplx.of(x)            # exp(i y) = cos y + i sin y for the purely imaginary argument i*y
+        cy, sy = pair(x.im)
+        return SCplx(cy, sy)
+    c, s = pair(theta / 2)
+    u, v = pair(-1.0 * phi / 2)
+    hyps = [c * c + s * s == 1, u * u + v * v == 1]
 
     def array(x, dtype=None):
         return rnp.array(x, dtype=object)
@@ -81,7 +110,7 @@ def _pauli(U):
     def body():
         for h in hyps:
             ctx().assume(h)
-        P = f(cls, theta=sreal("theta"), phi=sreal("phi"))
+        P = f(cls, theta=theta, phi=phi)
         sig = [P[:, :, k] for k in range(3)]
         U.ensure("shape (2,2,3)", tuple(P.shape) == (2, 2, 3))
         for a in range(3):
